@@ -61,7 +61,7 @@ def run(tier):
         # code -> spec: dynamic traces
         tp = os.path.join(scratch, "bs.ndjson")
         ntr = 300 if quick else 4000
-        norph = 2 if quick else 12
+        norph = 3 if quick else 12  # orphaned pending blocks, and (every third) a block slower than the 10 s orphan check
         rc, o, err = run_harness(binary, ["bsy", "-mode", "traces", "-seed", str(sd), "-count", str(ntr), "-orphans", str(norph),
                                           "-workers", "12", "-out", tp], timeout=3000)
         if rc != 0:
